@@ -467,4 +467,25 @@ theorem unknown_tagtype_rejected (s : IState) (lines : List Line) (l0 : Line) (r
   subst h
   simp [importStep, hu]
 
+/-- **an ignored section swallows nothing**: data lines that follow a prepare / activate tag begin a section of their own —
+whatever their tag type — so they are converted or rejected like any other section (before the repair D16 lines of a
+continuation tag type were appended to the ignored data and silently dropped) -/
+theorem ignored_section_swallows_nothing (s : IState) (f0 : Line) (frest : List Line) (hw fmt intf : Option Nat)
+    (hfw : s.fwdata = f0 :: frest) (hmap : Gen.BF2_TAGTYPE_MAP.lookup f0.typ = some (none, hw, fmt, intf))
+    (l0 : Line) (rest : List Line) (hk : isKnownTagtype l0.typ = true) :
+    importStep s (.load (l0 :: rest)) = .ok { s with fwdata := l0 :: rest } := by
+  have hai : afterIgnored s = true := by simp [afterIgnored, hfw, hmap]
+  have hne : s.fwdata.isEmpty = false := by simp [hfw]
+  simp only [importStep, hk, hai, hne, Bool.not_true, Bool.false_eq_true, if_false, Bool.or_true, Bool.not_false, Bool.and_self,
+    if_true, emit_ignored s f0 frest hw fmt intf hfw hmap, bind, Except.bind, pure, Except.pure]
+
+/-- … and a section that then consists of continuation pages only (its first line's tag type is not in the map) is rejected -/
+theorem orphan_continuation_rejected (s : IState) (l0 : Line) (rest : List Line) (hfw : s.fwdata = l0 :: rest)
+    (hmap : Gen.BF2_TAGTYPE_MAP.lookup l0.typ = none) : emit s = .error .unsupportedTagType := by
+  unfold emit
+  simp only [hfw, hmap]
+
+example : Gen.BF2_TAGTYPE_MAP.lookup 0x34 = some (none, none, none, none) ∧ isKnownTagtype 0x3E = true ∧
+    Gen.BF2_TAGTYPE_MAP.lookup 0x3E = none := by decide
+
 end Bec2Verif.Props.C13
